@@ -109,6 +109,7 @@ func readAllOf(rd ociregistry.BlobReader, err error) ([]byte, ociregistry.Descri
 // push performs the push path; it returns whether the registry accepted it.
 func c01Push(ctx context.Context, reg ociregistry.Interface, handler http.Handler, c c01Case, desc ociregistry.Descriptor) (accepted bool, err error) {
 	data := append([]byte(nil), c.Content...)
+	defer scribble(data) // the caller reuses its buffer after the push has returned
 	switch c.Path {
 	case "PushBlob":
 		_, err = reg.PushBlob(ctx, "r", desc, bytes.NewReader(data))
@@ -461,6 +462,8 @@ func c01Contents(thorough bool) [][]byte {
 		return b
 	}
 	out = append(out, big(5), big(8191), big(8192), big(8193))
+	// around the 4 MiB the distribution specification names as the manifest size registries should support
+	out = append(out, big(4<<20-1), big(4<<20), big(4<<20+1))
 	if thorough {
 		out = append(out, big(16385), big(131072), big(131073))
 	}
@@ -478,6 +481,9 @@ func c01Check(r *vcore.Run) vcore.Coverage {
 			}
 			for _, p := range paths {
 				if len(content) > 10000 && (st != "http1" && st != "mem" && st != "http2") {
+					continue
+				}
+				if len(content) > 1<<20 && (st == "http2" || p == "chunked" || p == "mount" || p == "single-post" || p == "manifest-raw-put") {
 					continue
 				}
 				cases = append(cases, c01Case{Stack: st, Path: p, Content: content})
